@@ -21,6 +21,7 @@ EXPLANATION = (
     "and LF (the csv reader ends a record at either, whatever the declared line delimiter) and from the line delimiter. "
     "(O12.4) both io.open calls for delimited text pass newline='' so that embedded line breaks survive. The csv "
     "module's own quoting and escaping algorithm is not decided (round-trip equality is a runtime relation)."
+    " Added in rounds 6 and 7: (O12.3) an accepted configuration's item delimiter exists in the declared encoding."
 )
 ASSUMPTIONS = ["the csv module writes and reads consistently for a dialect without contradictory roles"]
 
